@@ -26,6 +26,10 @@ def node_multiset(draw, U, p, invalid):
     pool = []
     for lo, hi in zip(bk[:-1], bk[1:]):
         pool += [lo + (hi - lo) * t for t in (F(1, 2), F(1, 3), F(4, 5))]
+        # "any rational knot values": positions whose denominators have 7 to 10 digits as well
+        zbig = lo + (hi - lo) * draw(st.sampled_from([F(1234577, 7654321), F(2 ** 31 - 1, 2 ** 33 + 9), F(355, 1130)]))
+        if all(abs(zbig - other) > (b - a) / 10 ** 4 for other in pool + [F(0)]):
+            pool.append(zbig)  # (the library identifies knots closer than 1e-6: distinct positions stay well apart)
     if a < 0 < b:
         pool += [F(0)] * 3
     pool += inner * 3
